@@ -1819,7 +1819,7 @@ pub(crate) fn resolve_temp_id(id: &str) -> Option<usize> {
             if !x.is_uppercase() {
                 return None;
             }
-            return Some(id[2..].parse().ok()?);
+            return iter.as_str().parse().ok();
         }
     }
     None
